@@ -94,7 +94,7 @@ class C03(E1Check):
         cfgs = super().configs()
         if self.tier == "quick":
             for c in cfgs:  # quick: file-backed configurations one level shallower
-                c["D"] = 4 if c["storage"] == "mem" else 3
+                c["D"] = 4 if c["name"] == "mem/auto" else 3
         return cfgs
 
     def budget(self):
